@@ -70,10 +70,8 @@ def oracle_af(c):
                 return "a solve call did not reach the external program", n
             a = [int(x) for x in t[2:t.index("=>")]]
             sess[sid].apply(("solve", a))
-            r = t[t.index("=>") + 1] if t.index("=>") + 1 < len(t) else ""
-            if r not in ("S", "U"):
-                return "session %s: the strict reference solver did not answer a query of the argumentation solver (`%s`)" % (sid, " ".join(t[t.index("=>") + 1:])), n
-            pending = (sid, a)
+            r = " ".join(t[t.index("=>") + 1:])
+            pending = (sid, a, r)
             n += 1
         elif k == "inst":
             if pending is None or pending[0] != sid:
@@ -81,6 +79,8 @@ def oracle_af(c):
             bad = check_instance(unhex(t[2]), sess[sid].clauses, pending[1])
             if bad:
                 return "session %s, assumptions %s: %s" % (sid, pending[1], bad), n
+            if pending[2][:1] not in ("S", "U"):
+                return "session %s: the strict reference solver did not answer a query of the argumentation solver (`%s`)" % (sid, pending[2]), n
             pending = None
     if pending is not None:
         return "a solve call did not reach the external program", n
